@@ -38,6 +38,10 @@ def clause_filter(cls, i):
         return {"type": "offhour", "offhour": 18 + i, "tag": "down%d" % i, "default_tz": "et", "skip-days": ["2021-01-0%d" % i]}
     if cls == "pand":     # the translation is "(A) && (B)": parenthesised at both ends, but not one group
         return {"type": "network-location", "compare": ["resource", "subnet"], "key": "tag:T%d" % i, "match": "equal", "max-cardinality": 1}
+    if cls == "npand":    # "! (I) && (C)"
+        return {"type": "network-location", "key": "tag:Owner%d" % i, "compare": ["subnet"], "ignore": [{"tag:Env": "dev%d" % i}]}
+    if cls == "condbs":   # a conditional clause whose text contains a string literal that ends with a backslash
+        return {"type": "offhour", "tag": "team%d\\" % i, "opt-out": True, "default_tz": "UTC", "offhour": 18 + i}
     if cls == "or2":      # no shipped rewriter has || at its top level: the clause text is supplied the way the repository's own tests do
         return {"type": "value", "key": OR2_MARK + str(i), "value": i, "op": "eq"}
     raise KeyError(cls)
